@@ -249,6 +249,12 @@ def run_wiring(topo):
                 share("core", "near_sol")
                 share("near_sol", "inner_sol")
                 share("near_sol", "outer_sol")
+            if topo.startswith("cdn"):
+                # reached only if the connected-double-null guard did not refuse: the first gridded SOL
+                # surface (the first CELL CENTRE, index 1) lies beyond the second separatrix on both sides
+                for nm in ("outer_sol", "inner_sol"):
+                    ctx.oblige(seg[nm]["psi_vals"].entry(1) >= eq.psi_sep[1], "connected double null accepted only if the first cell-centre surface of %s is not inside the second separatrix" % nm)
+                    ctx.oblige(seg[nm]["psi_vals"].entry(2) >= eq.psi_sep[1], "twin: guard on the cell FACE (index 2) instead", kind="must-fail")
             # requested boundary values
             ctx.oblige(TRUE(ends["core"] == (eq.psi_core, eq.psi_sep[0])), "core segment runs from psi_core to the primary separatrix")
             if not topo.startswith("cdn") and topo not in ("lsn", "usn"):
